@@ -873,46 +873,55 @@ func (in *Interp) concretizeInt(t *Term, lo, hi int, what string) int {
 		return int(v)
 	}
 	tt := in.tt
-	// narrow [lo,hi] using cheap solver queries (binary search on upper bound not needed for small ranges)
-	if hi-lo > 4096 {
-		// find feasible max by bisection on unsigned compare
-		h := hi
-		l := lo
-		for l < h {
-			mid := l + (h-l)/2
-			c := tt.Cmp(OpSle, t, tt.Const(t.w, uint64(mid)))
-			if t.w < 64 {
-				c = tt.Cmp(OpUle, t, tt.Const(t.w, uint64(mid)))
-			}
-			if in.feasible(tt.Not(c)) {
-				l = mid + 1
-			} else {
-				h = mid
-			}
-		}
-		hi = h
-		if hi-lo > 4096 {
-			panic(pathEnd{kind: "unwind", msg: "concretize " + what + ": range too large"})
-		}
-	}
-	var vals []int
-	if in.pos < len(in.prefix) {
+	if in.pos < len(in.prefix) || in.concreteMode {
 		// replay: decision value is the offset from lo
 		d := in.decide(hi-lo+1, nil)
 		v := lo + d
 		in.addPC(tt.Eq(t, tt.Const(t.w, uint64(v))))
 		return v
 	}
-	_ = vals
-	d := in.decide(hi-lo+1, func(i int) bool {
-		return in.feasible(tt.Eq(t, tt.Const(t.w, uint64(lo+i))))
-	})
+	// enumerate the feasible values with the solver: one query per value (+1)
+	vals := map[int]bool{}
+	var inr *Term
+	if t.w == 64 {
+		inr = tt.And(tt.Cmp(OpSle, tt.Const(64, uint64(int64(lo))), t), tt.Cmp(OpSle, t, tt.Const(64, uint64(int64(hi)))))
+	} else {
+		inr = tt.Cmp(OpUle, t, tt.Const(t.w, uint64(hi)))
+		if lo > 0 {
+			inr = tt.And(inr, tt.Cmp(OpUle, tt.Const(t.w, uint64(lo)), t))
+		}
+	}
+	extra := []*Term{inr}
+	for {
+		q := append(in.pc[:len(in.pc):len(in.pc)], extra...)
+		res, model := in.sol.CheckModel(q, collectSyms(q))
+		if res == Unknown {
+			in.stats.Unknown++
+			panic(pathEnd{kind: "unsupported", msg: "solver unknown while concretizing " + what})
+		}
+		if res != Sat {
+			break
+		}
+		raw := tt.Eval(t, model, map[int]uint64{})
+		v := int(int64(raw))
+		if t.w < 64 {
+			v = int(raw)
+		}
+		if v < lo || v > hi || vals[v] {
+			panic(unsupported("concretize: inconsistent model value"))
+		}
+		vals[v] = true
+		extra = append(extra, tt.Not(tt.Eq(t, tt.Const(t.w, uint64(v)))))
+		if len(vals) > 256 {
+			panic(pathEnd{kind: "unwind", msg: "concretize " + what + ": more than 256 feasible values"})
+		}
+	}
+	d := in.decide(hi-lo+1, func(i int) bool { return vals[lo+i] })
 	v := lo + d
 	in.addPC(tt.Eq(t, tt.Const(t.w, uint64(v))))
 	return v
 }
 
-// sliceBound concretizes a slice bound; values outside [0,cp] take a panic path.
 func (in *Interp) sliceBound(t *Term, cp int) int {
 	if t.IsConst() {
 		return in.concretizeInt(t, 0, cp, "slice bound")
